@@ -1452,6 +1452,11 @@ class Executor:
         if isinstance(a, SFloat) and isinstance(b, SFloat):
             self.notes.add("float == treated as identity of uninterpreted float terms")
             return a.t == b.t
+        if (isinstance(a, SFloat) and isinstance(b, (int, float))) or (isinstance(b, SFloat) and isinstance(a, (int, float))):
+            hook = self.ctx.float_compare
+            if hook is not None:  # float == literal: the contract's float-comparison model decides
+                x, y = (a, b) if isinstance(a, SFloat) else (b, a)
+                return hook(self, ast.Eq(), x, y, 0)
         if isinstance(a, PObj) or isinstance(b, PObj):
             if isinstance(a, PObj) and self.ctx.find_method(a.cls, "__eq__") is None:
                 return a is b
